@@ -1,0 +1,239 @@
+//go:build verif
+
+// Contracts for the gvc verifier (/verif). Comment-only file: it adds no code to the package.
+//
+// Each store method is verified as ONE critical section (option single-critical-section) in which every
+// access to the guarded fields happens with the mutex held, against a sequential contract over the map/fields.
+// Linearizability then follows from the textbook argument for single-lock objects (trusted, see DESIGN.md).
+package tmmemstore
+
+//@ guarded ActionStore.ras by mu
+//@ guarded FinalizationStore.byHeight by mu
+//@ guarded CommittedHeaderStore.chs by mu
+//@ guarded MirrorStore.votingHeight by mu
+//@ guarded MirrorStore.votingRound by mu
+//@ guarded MirrorStore.committingHeight by mu
+//@ guarded MirrorStore.committingRound by mu
+//@ guarded StateMachineStore.h by mu
+//@ guarded StateMachineStore.r by mu
+
+// ---- ActionStore (C16, C02) ----
+
+//@ define akey(h, r) = mkstruct(hr, h, r)
+//@ define others_unchanged(s, k) = forall x hr :: x != k ==> (x in s.ras) == old(x in s.ras) && s.ras[x] == old(s.ras[x])
+//@ define ras_unchanged(s) = dom(s.ras) == old(dom(s.ras)) && mapvals(s.ras) == old(mapvals(s.ras))
+
+//@ func ActionStore.SavePrevoteAction
+//@   property C16 C02
+//@   option single-critical-section on
+//@   requires s.ras != nil && pubKey != nil
+//@   ensures refuses-second-prevote: old(s.ras[akey(vt.Height, vt.Round)].PrevoteSignature) != "" ==>
+//@       istype(result, tmstore.DoubleActionError) && unbox(result, tmstore.DoubleActionError).Type == "prevote" && ras_unchanged(s)
+//@   ensures refuses-key-change: old(s.ras[akey(vt.Height, vt.Round)].PrevoteSignature) == "" &&
+//@       old(s.ras[akey(vt.Height, vt.Round)].PubKey) != nil &&
+//@       !(typeof(old(s.ras[akey(vt.Height, vt.Round)].PubKey)) == typeof(pubKey) && keybytes(old(s.ras[akey(vt.Height, vt.Round)].PubKey)) == keybytes(pubKey)) ==>
+//@       istype(result, tmstore.PubKeyChangedError) && ras_unchanged(s)
+//@   ensures records-first-prevote: result == nil ==>
+//@       (akey(vt.Height, vt.Round) in s.ras) &&
+//@       s.ras[akey(vt.Height, vt.Round)].PrevoteSignature == bytes(sig) && s.ras[akey(vt.Height, vt.Round)].PrevoteTarget == vt.BlockHash &&
+//@       s.ras[akey(vt.Height, vt.Round)].PubKey == pubKey && s.ras[akey(vt.Height, vt.Round)].Height == vt.Height && s.ras[akey(vt.Height, vt.Round)].Round == vt.Round &&
+//@       s.ras[akey(vt.Height, vt.Round)].PrecommitSignature == old(s.ras[akey(vt.Height, vt.Round)].PrecommitSignature) &&
+//@       s.ras[akey(vt.Height, vt.Round)].PrecommitTarget == old(s.ras[akey(vt.Height, vt.Round)].PrecommitTarget) &&
+//@       s.ras[akey(vt.Height, vt.Round)].ProposedHeader == old(s.ras[akey(vt.Height, vt.Round)].ProposedHeader)
+//@   ensures success-only-when-allowed: result == nil ==> old(s.ras[akey(vt.Height, vt.Round)].PrevoteSignature) == ""
+//@   ensures other-rounds-untouched: others_unchanged(s, akey(vt.Height, vt.Round))
+//@   modifies s.ras[*]
+
+//@ func ActionStore.SavePrecommitAction
+//@   property C16 C02
+//@   option single-critical-section on
+//@   requires s.ras != nil && pubKey != nil
+//@   ensures refuses-second-precommit: old(s.ras[akey(vt.Height, vt.Round)].PrecommitSignature) != "" ==>
+//@       istype(result, tmstore.DoubleActionError) && unbox(result, tmstore.DoubleActionError).Type == "precommit" && ras_unchanged(s)
+//@   ensures refuses-key-change: old(s.ras[akey(vt.Height, vt.Round)].PrecommitSignature) == "" &&
+//@       old(s.ras[akey(vt.Height, vt.Round)].PubKey) != nil &&
+//@       !(typeof(old(s.ras[akey(vt.Height, vt.Round)].PubKey)) == typeof(pubKey) && keybytes(old(s.ras[akey(vt.Height, vt.Round)].PubKey)) == keybytes(pubKey)) ==>
+//@       istype(result, tmstore.PubKeyChangedError) && ras_unchanged(s)
+//@   ensures records-first-precommit: result == nil ==>
+//@       (akey(vt.Height, vt.Round) in s.ras) &&
+//@       s.ras[akey(vt.Height, vt.Round)].PrecommitSignature == bytes(sig) && s.ras[akey(vt.Height, vt.Round)].PrecommitTarget == vt.BlockHash &&
+//@       s.ras[akey(vt.Height, vt.Round)].PubKey == pubKey && s.ras[akey(vt.Height, vt.Round)].Height == vt.Height && s.ras[akey(vt.Height, vt.Round)].Round == vt.Round &&
+//@       s.ras[akey(vt.Height, vt.Round)].PrevoteSignature == old(s.ras[akey(vt.Height, vt.Round)].PrevoteSignature) &&
+//@       s.ras[akey(vt.Height, vt.Round)].PrevoteTarget == old(s.ras[akey(vt.Height, vt.Round)].PrevoteTarget) &&
+//@       s.ras[akey(vt.Height, vt.Round)].ProposedHeader == old(s.ras[akey(vt.Height, vt.Round)].ProposedHeader)
+//@   ensures success-only-when-allowed: result == nil ==> old(s.ras[akey(vt.Height, vt.Round)].PrecommitSignature) == ""
+//@   ensures other-rounds-untouched: others_unchanged(s, akey(vt.Height, vt.Round))
+//@   modifies s.ras[*]
+
+//@ func ActionStore.SaveProposedHeaderAction
+//@   property C16 C02
+//@   option single-critical-section on
+//@   requires s.ras != nil
+//@   ensures refuses-second-proposal: old(s.ras[akey(ph.Header.Height, ph.Round)].ProposedHeader.Header.Height) != 0 ==>
+//@       istype(result, tmstore.DoubleActionError) && unbox(result, tmstore.DoubleActionError).Type == "proposed block" && ras_unchanged(s)
+//@   ensures records-first-proposal: result == nil ==>
+//@       old(s.ras[akey(ph.Header.Height, ph.Round)].ProposedHeader.Header.Height) == 0 &&
+//@       (akey(ph.Header.Height, ph.Round) in s.ras) && s.ras[akey(ph.Header.Height, ph.Round)].ProposedHeader == ph &&
+//@       s.ras[akey(ph.Header.Height, ph.Round)].PrevoteSignature == old(s.ras[akey(ph.Header.Height, ph.Round)].PrevoteSignature) &&
+//@       s.ras[akey(ph.Header.Height, ph.Round)].PrecommitSignature == old(s.ras[akey(ph.Header.Height, ph.Round)].PrecommitSignature) &&
+//@       s.ras[akey(ph.Header.Height, ph.Round)].PubKey == old(s.ras[akey(ph.Header.Height, ph.Round)].PubKey)
+//@   ensures other-rounds-untouched: others_unchanged(s, akey(ph.Header.Height, ph.Round))
+//@   modifies s.ras[*]
+
+//@ func ActionStore.LoadActions
+//@   property C16 C02
+//@   option single-critical-section on
+//@   ensures returns-latest-save: (akey(height, round) in s.ras) ==> result1 == nil && result0 == s.ras[akey(height, round)]
+//@   ensures unknown-round: !(akey(height, round) in s.ras) ==> istype(result1, tmconsensus.RoundUnknownError) &&
+//@       unbox(result1, tmconsensus.RoundUnknownError).WantHeight == height && unbox(result1, tmconsensus.RoundUnknownError).WantRound == round
+//@   modifies nothing
+
+// ---- FinalizationStore (C16, C08, C10) ----
+
+//@ func FinalizationStore.SaveFinalization
+//@   property C16
+//@   option single-critical-section on
+//@   requires s.byHeight != nil
+//@   ensures refuses-overwrite: old(height in s.byHeight) ==> istype(result, tmstore.FinalizationOverwriteError) &&
+//@       unbox(result, tmstore.FinalizationOverwriteError).Height == height &&
+//@       dom(s.byHeight) == old(dom(s.byHeight)) && mapvals(s.byHeight) == old(mapvals(s.byHeight))
+//@   ensures stores-new: !old(height in s.byHeight) ==> result == nil && (height in s.byHeight) &&
+//@       s.byHeight[height].R == round && s.byHeight[height].BlockHash == blockHash && s.byHeight[height].ValSet == valSet &&
+//@       s.byHeight[height].AppStateHash == appStateHash && s.byHeight[height].H == height
+//@   ensures other-heights-untouched: forall x uint64 :: x != height ==> (x in s.byHeight) == old(x in s.byHeight) && s.byHeight[x] == old(s.byHeight[x])
+//@   modifies s.byHeight[*]
+
+//@ func FinalizationStore.LoadFinalizationByHeight
+//@   property C16
+//@   option single-critical-section on
+//@   ensures returns-stored: (height in s.byHeight) ==> err == nil && round == s.byHeight[height].R && blockHash == s.byHeight[height].BlockHash &&
+//@       valSet == s.byHeight[height].ValSet && appStateHash == s.byHeight[height].AppStateHash
+//@   ensures unknown-height: !(height in s.byHeight) ==> istype(err, tmconsensus.HeightUnknownError) && unbox(err, tmconsensus.HeightUnknownError).Want == height
+//@   modifies nothing
+
+// ---- CommittedHeaderStore (C16, C04) ----
+
+//@ func CommittedHeaderStore.SaveCommittedHeader
+//@   property C16
+//@   option single-critical-section on
+//@   requires s.chs != nil
+//@   ensures stored: result == nil && (ch.Header.Height in s.chs) && s.chs[ch.Header.Height] == ch
+//@   ensures other-heights-untouched: forall x uint64 :: x != ch.Header.Height ==> (x in s.chs) == old(x in s.chs) && s.chs[x] == old(s.chs[x])
+//@   modifies s.chs[*]
+
+//@ func CommittedHeaderStore.LoadCommittedHeader
+//@   property C16
+//@   option single-critical-section on
+//@   ensures returns-stored: (height in s.chs) ==> result1 == nil && result0 == s.chs[height]
+//@   ensures unknown-height: !(height in s.chs) ==> istype(result1, tmconsensus.HeightUnknownError) && unbox(result1, tmconsensus.HeightUnknownError).Want == height
+//@   modifies nothing
+
+// ---- MirrorStore / StateMachineStore (C16, C04, C10) ----
+
+//@ func MirrorStore.SetNetworkHeightRound
+//@   property C16
+//@   option single-critical-section on
+//@   ensures result == nil && s.votingHeight == votingHeight && s.votingRound == votingRound &&
+//@       s.committingHeight == committingHeight && s.committingRound == committingRound
+//@   modifies s.votingHeight, s.votingRound, s.committingHeight, s.committingRound
+
+//@ func MirrorStore.NetworkHeightRound
+//@   property C16
+//@   option single-critical-section on
+//@   ensures initialized: s.votingHeight != 0 ==> err == nil && votingHeight == s.votingHeight && votingRound == s.votingRound &&
+//@       committingHeight == s.committingHeight && committingRound == s.committingRound
+//@   ensures uninitialized: s.votingHeight == 0 ==> err == tmstore.ErrStoreUninitialized
+//@   modifies nothing
+
+//@ func StateMachineStore.SetStateMachineHeightRound
+//@   property C16
+//@   option single-critical-section on
+//@   ensures result == nil && s.h == height && s.r == round
+//@   modifies s.h, s.r
+
+//@ func StateMachineStore.StateMachineHeightRound
+//@   property C16
+//@   option single-critical-section on
+//@   ensures initialized: s.h != 0 ==> err == nil && height == s.h && round == s.r
+//@   ensures uninitialized: s.h == 0 ==> err == tmstore.ErrStoreUninitialized
+//@   modifies nothing
+
+// ---- ValidatorStore (C16): returns for a hash exactly the keys / powers that were saved under it ----
+
+//@ guarded ValidatorStore.keys by mu
+//@ guarded ValidatorStore.pows by mu
+
+//@ func ValidatorStore.SavePubKeys
+//@   property C16
+//@   option single-critical-section on
+//@   requires s.keys != nil
+//@   ensures hash-error: result1 != nil && !istype(result1, tmstore.PubKeysAlreadyExistError) ==> dom(s.keys) == old(dom(s.keys)) && mapvals(s.keys) == old(mapvals(s.keys))
+//@   ensures refuses-existing: istype(result1, tmstore.PubKeysAlreadyExistError) && result0 != "" ==> result0 == old(HKeys(s.hs, keys)) && old(result0 in s.keys) &&
+//@       unbox(result1, tmstore.PubKeysAlreadyExistError).ExistingHash == result0 && dom(s.keys) == old(dom(s.keys)) && mapvals(s.keys) == old(mapvals(s.keys))
+//@   ensures stores-under-own-hash: result1 == nil ==> result0 == old(HKeys(s.hs, keys)) && !old(result0 in s.keys) && (result0 in s.keys) && s.keys[result0] == keys
+//@   ensures other-hashes-untouched: forall h string :: h != result0 ==> (h in s.keys) == old(h in s.keys) && s.keys[h] == old(s.keys[h])
+//@   modifies s.keys[*]
+
+//@ func ValidatorStore.SaveVotePowers
+//@   property C16
+//@   option single-critical-section on
+//@   requires s.pows != nil
+//@   ensures refuses-existing: istype(result1, tmstore.VotePowersAlreadyExistError) && result0 != "" ==> result0 == old(HPows(s.hs, pows)) && old(result0 in s.pows) &&
+//@       unbox(result1, tmstore.VotePowersAlreadyExistError).ExistingHash == result0 && dom(s.pows) == old(dom(s.pows)) && mapvals(s.pows) == old(mapvals(s.pows))
+//@   ensures stores-clone-under-own-hash: result1 == nil ==> result0 == old(HPows(s.hs, pows)) && !old(result0 in s.pows) && (result0 in s.pows) &&
+//@       len(s.pows[result0]) == len(pows) && (forall i int :: 0 <= i && i < len(pows) ==> s.pows[result0][i] == pows[i]) &&
+//@       (pows != nil ==> fresh(s.pows[result0]))
+//@   ensures other-hashes-untouched: forall h string :: h != result0 ==> (h in s.pows) == old(h in s.pows) && s.pows[h] == old(s.pows[h])
+//@   modifies s.pows[*]
+
+//@ func ValidatorStore.LoadPubKeys
+//@   property C16
+//@   option single-critical-section on
+//@   ensures returns-stored: (hash in s.keys) ==> result1 == nil && result0 == s.keys[hash]
+//@   ensures unknown-hash: !(hash in s.keys) ==> result0 == nil && istype(result1, tmstore.NoPubKeyHashError) && unbox(result1, tmstore.NoPubKeyHashError).Want == hash
+//@   modifies nothing
+
+//@ func ValidatorStore.LoadVotePowers
+//@   property C16
+//@   option single-critical-section on
+//@   ensures returns-stored: (hash in s.pows) ==> result1 == nil && result0 == s.pows[hash]
+//@   ensures unknown-hash: !(hash in s.pows) ==> result0 == nil && istype(result1, tmstore.NoVotePowerHashError) && unbox(result1, tmstore.NoVotePowerHashError).Want == hash
+//@   modifies nothing
+
+//@ func ValidatorStore.LoadValidators
+//@   property C16
+//@   option single-critical-section on
+//@   ensures zipped: (keyHash in s.keys) && (powHash in s.pows) && len(s.keys[keyHash]) == len(s.pows[powHash]) ==>
+//@       result1 == nil && len(result0) == len(s.keys[keyHash]) &&
+//@       (forall i int :: 0 <= i && i < len(result0) ==> result0[i].PubKey == s.keys[keyHash][i] && result0[i].Power == s.pows[powHash][i])
+//@   ensures missing-hash: !(keyHash in s.keys) || !(powHash in s.pows) ==> result0 == nil && result1 != nil
+//@   ensures count-mismatch: (keyHash in s.keys) && (powHash in s.pows) && len(s.keys[keyHash]) != len(s.pows[powHash]) ==>
+//@       result0 == nil && istype(result1, tmstore.PubKeyPowerCountMismatchError)
+//@   modifies nothing
+//@   loop 1 invariant 0 <= rangeindex + 1 && rangeindex + 1 <= len(keys) && len(vals) == len(keys) && fresh(vals) && keys == s.keys[keyHash] && pows == s.pows[powHash] && len(keys) == len(pows) &&
+//@       (forall j int :: 0 <= j && j <= rangeindex ==> vals[j].PubKey == keys[j] && vals[j].Power == pows[j])
+
+// ---- RoundStore (C16, C05, C10): vote collections are overwritten per (height, round) ----
+
+//@ guarded RoundStore.phs by mu
+//@ guarded RoundStore.prevotes by mu
+//@ guarded RoundStore.precommits by mu
+//@ guarded RoundStore.replayedHeaders by mu
+
+//@ func RoundStore.OverwriteRoundPrevoteProofs
+//@   property C16
+//@   option single-critical-section on
+//@   requires s.prevotes != nil
+//@   requires forall h uint64 :: h in s.prevotes ==> s.prevotes[h] != nil
+//@   ensures stored: result == nil && (height in s.prevotes) && (round in s.prevotes[height]) && s.prevotes[height][round] == proofs
+//@   ensures other-heights-untouched: forall h uint64 :: h != height && old(h in s.prevotes) ==> (h in s.prevotes) && s.prevotes[h] == old(s.prevotes[h])
+//@   modifies heap
+
+//@ func RoundStore.OverwriteRoundPrecommitProofs
+//@   property C16
+//@   option single-critical-section on
+//@   requires s.precommits != nil
+//@   requires forall h uint64 :: h in s.precommits ==> s.precommits[h] != nil
+//@   ensures stored: result == nil && (height in s.precommits) && (round in s.precommits[height]) && s.precommits[height][round] == proofs
+//@   ensures other-heights-untouched: forall h uint64 :: h != height && old(h in s.precommits) ==> (h in s.precommits) && s.precommits[h] == old(s.precommits[h])
+//@   modifies heap
